@@ -19,7 +19,7 @@ def gen_cases(rng, tier):
             k = rng.choice([0, 1, 1, 1, 2, 2, 3, 4, 6, 8])
             src = recvlib.inject_mistakes(rng, src, k)
             cases.append({"target": x["name"], "src": src, "entry": "meta", "injected": k})
-    return recvprop.all_with_pairs(cases)
+    return recvprop.all_with_pairs(recvprop.with_groups(rng, cases))
 
 
 def run(tier, seed, replay=None):
@@ -28,13 +28,13 @@ def run(tier, seed, replay=None):
     R.proof_coverage(vlib.proof_step(prop))
     if replay:
         c = json.load(open(replay))["case"]
-        raw = [{k: c[k] for k in ("target", "src", "entry", "pairs", "injected") if k in c}]
+        raw = [{k: c[k] for k in ("target", "src", "entry", "pairs", "injected", "group_all") if k in c}]
     else:
         raw = gen_cases(R.rng, tier)
     out = convlib.run_conv_property(
         R, prop, raw, "run_recv_counted holds02 nontrivial02 %s",
         lambda c, r: recvlib.c_case_recv(recvlib.BY_NAME[c["target"]], c, r),
-        describe=lambda c: "%s on `%s`" % (c["target"], c["src"]),
+        describe=lambda c: "%s on %s" % (c["target"], recvprop.shown(c)),
         key_fn=lambda c, r: "mistake-reporting",
         model_body="Eval vm_compute in (model_recv c, expected_of c, mistakes_of c).",
         failed_holds="holds02 (Exec/RecvCase.v): fails iff the per-field specification finds a mistake; leaf count = number of mistakes",
